@@ -635,6 +635,13 @@ def can_fuse_primitive_ops(
     primitive_op1: PrimitiveOperation, primitive_op2: PrimitiveOperation
 ) -> bool:
     if is_fuse_candidate(primitive_op1) and is_fuse_candidate(primitive_op2):
+        # the first op must allow being fused with its successor (e.g. a store op doesn't)
+        # and the second op with its predecessor
+        if not (
+            primitive_op1.fusable_with_successors
+            and primitive_op2.fusable_with_predecessors
+        ):
+            return False
         return primitive_op1.num_tasks == primitive_op2.num_tasks
     return False
 
